@@ -61,10 +61,11 @@ def resolveAll (abi : AbiDesc) : List String → Except GenErr (List String)
     let rs ← resolveAll abi ns
     .ok (r :: rs)
 
-/-- `list.remove(x)` for each `x`, ValueError when absent -/
+/-- `if x in l: l.remove(x)` for each `x`: a read register that is not (or no longer) in the pool
+is simply not handed out -/
 def removeAll : List String → List String → Except GenErr (List String)
   | avail, [] => .ok avail
-  | avail, r :: rs => if r ∈ avail then removeAll (avail.erase r) rs else .error .valueError
+  | avail, r :: rs => removeAll (avail.erase r) rs
 
 /-- scratch registers left once the declared clobbers are taken out -/
 def availAfterClobbers (abi : AbiDesc) (clob : List String) : List String :=
